@@ -1,7 +1,10 @@
-//! C02 / C15 on the real `RateLimiter`, callers on 2-4 OS threads inside one window.
+//! C02 / C15 on the real `RateLimiter`, callers on 2-4 OS threads.
 //!
-//! The period is one hour and the timeout zero, so the window never refreshes during a run and
-//! nobody sleeps: every call is decided at its first polls. With N calls in all and limit L:
+//! The limiter reads tokio's paused clock (verif-hooks feature), which only moves when the main
+//! thread advances it. The timeout is zero, so nobody sleeps: every call is decided at its first
+//! polls. Shape 0: one window (period one hour). Shape 1: the main thread first uses part of a
+//! window (period 50 ms), lets two and a half periods pass with no call, and then the threads
+//! burst at one instant: the refresh itself is raced. With N calls in the burst and limit L:
 //! * `C02.window_partition [os_threads]`: at most L calls reach the wrapped service,
 //! * `C15.admit_at_once [os_threads]`: exactly min(N, L) do (a call may only be rejected when the
 //!   window has no spare capacity, and permits are never handed back inside a window),
@@ -20,14 +23,16 @@ pub fn run(wseed: u64, rt: &tokio::runtime::Runtime) {
     let threads = 2 + rng.below(3) as usize;
     let per: Vec<usize> = (0..threads).map(|_| 1 + rng.below(2) as usize).collect();
     let n: usize = per.iter().sum();
-    println!("MSIM scenario=ratelimiter wseed={} window={} limit={} per_thread={:?}", wseed, window, limit, per);
+    let shape = rng.below(2);
+    let prefill = if shape == 1 { rng.below(limit as u64 + 2) as usize } else { 0 };
+    println!("MSIM scenario=ratelimiter wseed={} window={} limit={} per_thread={:?} shape={} prefill={}", wseed, window, limit, per, shape, prefill);
 
     let handle = rt.handle().clone();
     let _g = rt.enter();
-    let sh = Shared::new(usize::MAX, n);
+    let sh = Shared::new(usize::MAX, n + prefill);
     let layer = RateLimiterLayer::builder()
         .limit_for_period(limit)
-        .refresh_period(Duration::from_secs(3600))
+        .refresh_period(if shape == 1 { Duration::from_millis(50) } else { Duration::from_secs(3600) })
         .timeout_duration(Duration::ZERO)
         .window_type(match window {
             0 => WindowType::Fixed,
@@ -37,6 +42,17 @@ pub fn run(wseed: u64, rt: &tokio::runtime::Runtime) {
         .build();
     let svc = layer.layer(Inner { sh: sh.clone() });
     let admitted = Arc::new(AtomicUsize::new(0));
+    if shape == 1 {
+        // part of a window is used, then the limiter is idle for two and a half periods
+        let mut first = svc.clone();
+        for k in 0..prefill {
+            let mut f = Box::pin(first.call(Req { id: n + k, pends: 0, fail: false, slow_drop: 0 }));
+            let _ = drive(f.as_mut(), 1000);
+        }
+        rt.block_on(tokio::time::advance(Duration::from_millis(125)));
+        let (d, _) = (sh.entered_total.swap(0, SeqCst), 0);
+        let _ = d;
+    }
     let mut joins = Vec::new();
     let mut base = 0usize;
     for k in per {
